@@ -2,5 +2,5 @@
 From Coq Require Import Extraction ExtrOcamlBasic ExtrOcamlString ZArith.
 From Cb Require Import C05.Model.
 Extraction Language OCaml.
-Extraction "C05/c05_model.ml" calc_flat narrow32 resolve ptr_arith step run_plain run_checked classify
+Extraction "C05/c05_model.ml" calc_flat narrow32 index_to_int all_to_int resolve ptr_arith step run_plain run_checked classify
   builtin_get size Z.add Z.mul Z.sub Z.div Z.modulo Z.ltb Z.eqb Z.opp.
